@@ -271,3 +271,28 @@ Qed.
 
 Lemma wfb_enc_body v ts : valid v ts -> wfb (enc_body (senc v) ts).
 Proof. apply wfb_enc_groups. Qed.
+
+(* the same from the bytes of the tokens alone (used for streams with an illegal reference) *)
+Lemma valid_from_senc_wfb v : forall ts prod, valid_from v prod ts -> Forall (fun t => wfb (senc v t)) ts.
+Proof.
+  induction ts as [|t r IH]; intros prod H; constructor.
+  - eapply senc_wfb. exact H.
+  - destruct t; cbn [valid_from] in H; eapply IH; apply H.
+Qed.
+
+Lemma wfb_concat_gen v : forall ts, Forall (fun t => wfb (senc v t)) ts -> wfb (concat (map (senc v) ts)).
+Proof. induction 1 as [|t r Ht Hr IH]; cbn [map concat]; [constructor | apply wfb_app; assumption]. Qed.
+
+Lemma wfb_enc_groups_gen v : forall fuel ts, Forall (fun t => wfb (senc v t)) ts -> wfb (enc_groups (senc v) fuel ts).
+Proof.
+  induction fuel as [|fuel IH]; intros ts H; [destruct ts; constructor|].
+  destruct ts as [|t r]; [constructor|].
+  remember (t :: r) as ts eqn:Ets.
+  replace (enc_groups (senc v) (S fuel) ts)
+    with (flag_of 0 (firstn 8 ts) :: concat (map (senc v) (firstn 8 ts)) ++ enc_groups (senc v) fuel (skipn 8 ts))
+    by (subst ts; reflexivity).
+  constructor; [apply flag_of_byte; rewrite firstn_length; lia|].
+  apply wfb_app.
+  - apply wfb_concat_gen. rewrite Forall_forall in *. intros a Ha. apply H. eapply In_firstn'. exact Ha.
+  - apply IH. rewrite Forall_forall in *. intros a Ha. apply H. eapply In_skipn. exact Ha.
+Qed.
